@@ -35,6 +35,9 @@ pub enum Base {
     Sends,
     /// the inbound stream of `Handlers` delivered one byte per write (fault at every byte offset)
     Bytes,
+    /// write back-pressure active: the peer does not read, the small write buffer is over its high
+    /// watermark, one publish handler is in flight; the peer starts reading again after the fault
+    Backpressure,
 }
 
 #[derive(Clone, Debug)]
@@ -60,6 +63,7 @@ pub struct Td {
     fault_step: Option<u64>,
     ticks: u32,
     fault_applicable: bool,
+    window_reopened: bool,
 }
 
 #[derive(Clone, Debug)]
@@ -67,6 +71,7 @@ enum BaseStep {
     Send(Pkt),
     SendRaw(Vec<u8>),
     StartSender(usize, SK),
+    Window(bool),
 }
 
 fn script_for(cfg: &TdCfg) -> Vec<BaseStep> {
@@ -85,6 +90,14 @@ fn script_for(cfg: &TdCfg) -> Vec<BaseStep> {
             let cut = b.len() - 4;
             vec![BaseStep::SendRaw(b[..cut].to_vec())]
         }
+        Base::Backpressure => vec![
+            BaseStep::Send(rf::publish(1, 1, "t", &[0xC1])),
+            BaseStep::Window(false),
+            BaseStep::StartSender(0, SK::Q0),
+            BaseStep::StartSender(1, SK::Q0),
+            BaseStep::StartSender(2, SK::Q0),
+            BaseStep::StartSender(3, SK::Q0),
+        ],
         Base::Sends => vec![BaseStep::StartSender(0, SK::Q1), BaseStep::StartSender(1, SK::Q1), BaseStep::StartSender(2, SK::Ready)],
         Base::Bytes => {
             let mut all = Vec::new();
@@ -141,10 +154,10 @@ impl Scenario for Td {
         Box::pin(async move {
             let props = if cfg.ep.ver == Ver::V5 && cfg.ep.role == Role::Server && cfg.base == Base::Sends { vec![(0x21, PVal::U16(1))] } else { vec![] };
             let conn = start_endpoint(&cfg.ep, props, true).await;
-            let app: App = std::rc::Rc::new(std::cell::RefCell::new((0..3).map(|_| SenderSt::default()).collect()));
+            let app: App = std::rc::Rc::new(std::cell::RefCell::new((0..4).map(|_| SenderSt::default()).collect()));
             ntex_util::time::vclock::advance(Duration::from_millis(100));
             let script = script_for(&cfg);
-            Td { cfg, conn, app, script, pos: 0, fault_step: None, ticks: 0, fault_applicable: false }
+            Td { cfg, conn, app, script, pos: 0, fault_step: None, ticks: 0, fault_applicable: false, window_reopened: false }
         })
     }
 
@@ -171,6 +184,7 @@ impl Scenario for Td {
                 match st {
                     BaseStep::Send(p) => self.conn.send(&p),
                     BaseStep::SendRaw(b) => self.conn.send_raw(&b),
+                    BaseStep::Window(open) => self.conn.window(open),
                     BaseStep::StartSender(j, k) => {
                         if let Some(s) = self.conn.sink() {
                             start_sender(&s, k, j, self.app.clone());
@@ -250,6 +264,12 @@ impl Scenario for Td {
             }
             return false;
         }
+        // the peer reads again: the write buffer flushes and the dispatcher leaves its back-pressure state
+        if self.cfg.base == Base::Backpressure && !self.window_reopened {
+            self.window_reopened = true;
+            self.conn.window(true);
+            return true;
+        }
         // let time pass (keep-alive expiry, disconnect timeout) until the connection task has completed
         if !self.conn.done() && self.ticks < 60 {
             self.ticks += 1;
@@ -316,7 +336,7 @@ pub fn configs(tier: Tier) -> Vec<TdCfg> {
     let mut v = Vec::new();
     let causes = [Cause::PeerClose, Cause::ReadErr, Cause::WriteErr, Cause::Garbage, Cause::ProtoViolation, Cause::HandlerErr, Cause::ProtoErr, Cause::KeepAlive, Cause::Close, Cause::ForceClose];
     for (ver, role) in crate::c05::roles() {
-        for base in [Base::Handlers, Base::Streaming, Base::Sends, Base::Bytes] {
+        for base in [Base::Handlers, Base::Streaming, Base::Sends, Base::Bytes, Base::Backpressure] {
             for cause in causes {
                 if base == Base::Bytes && !matches!(cause, Cause::PeerClose | Cause::ReadErr | Cause::ForceClose | Cause::Garbage) {
                     continue;
@@ -328,7 +348,7 @@ pub fn configs(tier: Tier) -> Vec<TdCfg> {
                 if cause == Cause::ProtoErr && (role == Role::Client || base != Base::Handlers) {
                     continue;
                 }
-                if cause == Cause::HandlerErr && base != Base::Handlers {
+                if cause == Cause::HandlerErr && !matches!(base, Base::Handlers | Base::Backpressure) {
                     continue;
                 }
                 // bytes written in the middle of a half-received payload are payload, not a new (bad) packet
@@ -348,6 +368,9 @@ pub fn configs(tier: Tier) -> Vec<TdCfg> {
                     ep = crate::outbound::ep_for(ep, 1, false);
                     ep.handler_auto = false;
                 }
+                if base == Base::Backpressure {
+                    ep.write_buf = Some((16, 4, 16));
+                }
                 let _ = tier;
                 v.push(TdCfg { ep, base, cause });
             }
@@ -364,7 +387,7 @@ pub fn run(tier: Tier) -> i32 {
         ck.explore::<Td>("teardown", i, c, &ecfg);
     }
     ck.rule = format!(
-        "4 roles x 4 base schedules (the publish/subscribe stream delivered one byte per write for peer close / read error / force-close at every byte offset; two gated publish handlers + gated SUBSCRIBE; streamed PUBLISH half received with the handler blocked in read(); one send awaiting its ack + one parked on the window + one ready() future) x 10 termination causes (peer close, read error, write error, undecodable bytes, protocol-violating packet, publish handler error, protocol handler error, keep-alive expiry, sink.close(), sink.force_close()); the cause is injected before/after every step of the base schedule at quiescence and, with {} deviation(s), between any two task polls; afterwards virtual time advances up to 60 s and gates are never opened; oracle: exactly one Stop of the class the statement assigns to the cause, connection task completed, every send/ready future resolved, blocked reader saw an error or was cancelled, handlers cancelled only after the Stop was handled, nothing left executing",
+        "4 roles x 5 base schedules (write back-pressure active - peer not reading, 16-byte write buffer over its high watermark, a publish handler in flight - with the peer reading again after the fault; the publish/subscribe stream delivered one byte per write for peer close / read error / force-close at every byte offset; two gated publish handlers + gated SUBSCRIBE; streamed PUBLISH half received with the handler blocked in read(); one send awaiting its ack + one parked on the window + one ready() future) x 10 termination causes (peer close, read error, write error, undecodable bytes, protocol-violating packet, publish handler error, protocol handler error, keep-alive expiry, sink.close(), sink.force_close()); the cause is injected before/after every step of the base schedule at quiescence and, with {} deviation(s), between any two task polls; afterwards virtual time advances up to 60 s and gates are never opened; oracle: exactly one Stop of the class the statement assigns to the cause, connection task completed, every send/ready future resolved, blocked reader saw an error or was cancelled, handlers cancelled only after the Stop was handled, nothing left executing",
         ecfg.max_dev
     );
     ck.assumptions = vec![
